@@ -558,13 +558,13 @@ func (g *chainGen) buildLevel(depth int, initial Files, signers []*TestKey, name
 				// content agrees with the honest links (seeded change
 				// c02-accepted-signature-cache-ignores-payload)
 				kind = "tampered"
-				for _, cand := range fs[honest:] {
+				for ci, cand := range fs {
 					if prev, ok := g.honestSigned[cand.ID]; ok && g.honestStep[cand.ID] < i && top {
 						t := append(JObj{}, prev...)
 						t = t.Set("signed", linkTree(name, mats, prods, cmd))
-						put(shortID(cand.ID), t)
+						put(shortID(cand.ID), t) // (replaces the honest link of a functionary who took part in this step too)
 						lv.Feat = append(lv.Feat, "replayed-sig")
-						if honest >= 1 && honest == threshold && rng.Chance(60) {
+						if ci >= honest && honest >= 1 && honest == threshold {
 							// ... and it decides: one honest link is taken away, so the step is exactly one
 							// link short unless the forged one is counted
 							delete(files, name+"."+shortID(fs[honest-1].ID)+".link")
